@@ -6,17 +6,39 @@
 
 package httpserver
 
-//@ unit listener_timeouts props=C17 filter=`Timeouts$`
+//@ unit listener_timeouts props=C17 filter=`httpserver\.(makeHTTPServerWithTimeouts|stricterTimeout)$`
+//@ func stricterTimeout
+//@   pure
+//@   ensures result == (a != 0 && (b == 0 || a < b))
+
+//@ // strictest: the result is one of the set values, and no set value is stricter than it (0 = no timeout = weakest, as in net/http)
 //@ func makeHTTPServerWithTimeouts
 //@   requires forall(k, 0, len(group), group[k] != nil)
 //@   ensures [default_read] forall(k, 0, len(group), !group[k].Timeouts.ReadTimeoutSet) ==> result.ReadTimeout == defaultTimeouts.ReadTimeout
-//@   ensures [numeric_min_read] forall(k, 0, len(group), group[k].Timeouts.ReadTimeoutSet ==> result.ReadTimeout <= group[k].Timeouts.ReadTimeout)
 //@   ensures [attained_read] exists(k, 0, len(group), group[k].Timeouts.ReadTimeoutSet) ==> exists(k, 0, len(group), group[k].Timeouts.ReadTimeoutSet && result.ReadTimeout == group[k].Timeouts.ReadTimeout)
 //@   ensures [strictest_read] forall(k, 0, len(group), group[k].Timeouts.ReadTimeoutSet ==> (result.ReadTimeout == group[k].Timeouts.ReadTimeout || (result.ReadTimeout != 0 && (group[k].Timeouts.ReadTimeout == 0 || result.ReadTimeout <= group[k].Timeouts.ReadTimeout))))
+//@   ensures [default_header] forall(k, 0, len(group), !group[k].Timeouts.ReadHeaderTimeoutSet) ==> result.ReadHeaderTimeout == defaultTimeouts.ReadHeaderTimeout
+//@   ensures [attained_header] exists(k, 0, len(group), group[k].Timeouts.ReadHeaderTimeoutSet) ==> exists(k, 0, len(group), group[k].Timeouts.ReadHeaderTimeoutSet && result.ReadHeaderTimeout == group[k].Timeouts.ReadHeaderTimeout)
+//@   ensures [strictest_header] forall(k, 0, len(group), group[k].Timeouts.ReadHeaderTimeoutSet ==> (result.ReadHeaderTimeout == group[k].Timeouts.ReadHeaderTimeout || (result.ReadHeaderTimeout != 0 && (group[k].Timeouts.ReadHeaderTimeout == 0 || result.ReadHeaderTimeout <= group[k].Timeouts.ReadHeaderTimeout))))
+//@   ensures [default_write] forall(k, 0, len(group), !group[k].Timeouts.WriteTimeoutSet) ==> result.WriteTimeout == defaultTimeouts.WriteTimeout
+//@   ensures [attained_write] exists(k, 0, len(group), group[k].Timeouts.WriteTimeoutSet) ==> exists(k, 0, len(group), group[k].Timeouts.WriteTimeoutSet && result.WriteTimeout == group[k].Timeouts.WriteTimeout)
+//@   ensures [strictest_write] forall(k, 0, len(group), group[k].Timeouts.WriteTimeoutSet ==> (result.WriteTimeout == group[k].Timeouts.WriteTimeout || (result.WriteTimeout != 0 && (group[k].Timeouts.WriteTimeout == 0 || result.WriteTimeout <= group[k].Timeouts.WriteTimeout))))
+//@   ensures [default_idle] forall(k, 0, len(group), !group[k].Timeouts.IdleTimeoutSet) ==> result.IdleTimeout == defaultTimeouts.IdleTimeout
+//@   ensures [attained_idle] exists(k, 0, len(group), group[k].Timeouts.IdleTimeoutSet) ==> exists(k, 0, len(group), group[k].Timeouts.IdleTimeoutSet && result.IdleTimeout == group[k].Timeouts.IdleTimeout)
+//@   ensures [strictest_idle] forall(k, 0, len(group), group[k].Timeouts.IdleTimeoutSet ==> (result.IdleTimeout == group[k].Timeouts.IdleTimeout || (result.IdleTimeout != 0 && (group[k].Timeouts.IdleTimeout == 0 || result.IdleTimeout <= group[k].Timeouts.IdleTimeout))))
 //@   loop 1 invariant 0 <= #i && #i <= len(group)
 //@   loop 1 invariant min.ReadTimeoutSet == exists(k, 0, #i, group[k].Timeouts.ReadTimeoutSet)
 //@   loop 1 invariant min.ReadTimeoutSet ==> exists(k, 0, #i, group[k].Timeouts.ReadTimeoutSet && min.ReadTimeout == group[k].Timeouts.ReadTimeout)
-//@   loop 1 invariant forall(k, 0, #i, group[k].Timeouts.ReadTimeoutSet ==> min.ReadTimeout <= group[k].Timeouts.ReadTimeout)
+//@   loop 1 invariant forall(k, 0, #i, group[k].Timeouts.ReadTimeoutSet ==> (min.ReadTimeout == group[k].Timeouts.ReadTimeout || (min.ReadTimeout != 0 && (group[k].Timeouts.ReadTimeout == 0 || min.ReadTimeout <= group[k].Timeouts.ReadTimeout))))
+//@   loop 1 invariant min.ReadHeaderTimeoutSet == exists(k, 0, #i, group[k].Timeouts.ReadHeaderTimeoutSet)
+//@   loop 1 invariant min.ReadHeaderTimeoutSet ==> exists(k, 0, #i, group[k].Timeouts.ReadHeaderTimeoutSet && min.ReadHeaderTimeout == group[k].Timeouts.ReadHeaderTimeout)
+//@   loop 1 invariant forall(k, 0, #i, group[k].Timeouts.ReadHeaderTimeoutSet ==> (min.ReadHeaderTimeout == group[k].Timeouts.ReadHeaderTimeout || (min.ReadHeaderTimeout != 0 && (group[k].Timeouts.ReadHeaderTimeout == 0 || min.ReadHeaderTimeout <= group[k].Timeouts.ReadHeaderTimeout))))
+//@   loop 1 invariant min.WriteTimeoutSet == exists(k, 0, #i, group[k].Timeouts.WriteTimeoutSet)
+//@   loop 1 invariant min.WriteTimeoutSet ==> exists(k, 0, #i, group[k].Timeouts.WriteTimeoutSet && min.WriteTimeout == group[k].Timeouts.WriteTimeout)
+//@   loop 1 invariant forall(k, 0, #i, group[k].Timeouts.WriteTimeoutSet ==> (min.WriteTimeout == group[k].Timeouts.WriteTimeout || (min.WriteTimeout != 0 && (group[k].Timeouts.WriteTimeout == 0 || min.WriteTimeout <= group[k].Timeouts.WriteTimeout))))
+//@   loop 1 invariant min.IdleTimeoutSet == exists(k, 0, #i, group[k].Timeouts.IdleTimeoutSet)
+//@   loop 1 invariant min.IdleTimeoutSet ==> exists(k, 0, #i, group[k].Timeouts.IdleTimeoutSet && min.IdleTimeout == group[k].Timeouts.IdleTimeout)
+//@   loop 1 invariant forall(k, 0, #i, group[k].Timeouts.IdleTimeoutSet ==> (min.IdleTimeout == group[k].Timeouts.IdleTimeout || (min.IdleTimeout != 0 && (group[k].Timeouts.IdleTimeout == 0 || min.IdleTimeout <= group[k].Timeouts.IdleTimeout))))
 
 //@ unit match_host props=C01 filter=`vhostTrie\)\.matchHost$`
 //@ spec nparts(s string, sep string) int
